@@ -18,6 +18,14 @@ macro_rules! opaque {
     )* } }
 }
 opaque!(AmqpError, SessionStopReason, Attach, LinkFlow, Disposition, Transfer, Payload, DeliveryT, AcqMarker, InputHandle);
+// bytes::Bytes as far as these functions may look at it: its length (R11)
+impl Payload {
+    pub uninterp spec fn spec_len(&self) -> nat;
+    #[verifier::external_body]
+    pub fn len(&self) -> (r: usize) ensures r == self.spec_len() { unimplemented!() }
+    #[verifier::external_body]
+    pub fn is_empty(&self) -> (r: bool) ensures r == (self.spec_len() == 0) { unimplemented!() }
+}
 pub struct Handle(pub u32);
 pub type Boolean = bool;
 //@@ type file=fe2o3-amqp-types/src/performatives/detach.rs kind=struct name=Detach
